@@ -80,11 +80,11 @@ fn grid(rng: &mut Rng, extra: usize, quick: bool) {
     let mut ints: Vec<i32> = INT_GRID.to_vec();
     let mut floats: Vec<u32> = FLOAT_GRID.to_vec();
     if quick {
-        // quick tier: a seed-dependent half of the boundary values (always keeping 0, +-1, MIN, MAX, 31..33)
+        // quick tier: a seed-dependent quarter of the boundary values (always keeping 0, +-1, MIN, MAX, 31..33)
         let keep_i: Vec<i32> = vec![0, 1, -1, 31, 32, 33, i32::MIN, i32::MAX];
-        ints.retain(|v| keep_i.contains(v) || rng.chance(1, 2));
+        ints.retain(|v| keep_i.contains(v) || rng.chance(1, 4));
         let keep_f: Vec<u32> = vec![0, 0x80000000, 0x3f800000, 0x7f800000, 0xff800000, 0x7fc00000, 0x4f000000];
-        floats.retain(|v| keep_f.contains(v) || rng.chance(1, 2));
+        floats.retain(|v| keep_f.contains(v) || rng.chance(1, 4));
     }
     for _ in 0..extra { ints.push(rng.next_u64() as i32); floats.push(rng.next_u64() as u32); }
     for &op in BINOPS.iter() {
